@@ -130,3 +130,22 @@ pub fn probe_rewriter() -> Box<dyn FnMut(i64, &'static str, u64, &[u8]) -> Optio
         Some(out)
     })
 }
+
+/// a peer may retire any connection id it was given at any time: once, at or after `at_us`, the packet that reaches the
+/// server also carries RETIRE_CONNECTION_ID for the newest id the server has issued (a spare the client is not using)
+pub fn early_retire(at_us: u64) -> Box<dyn FnMut(i64, &'static str, u64, &[u8]) -> Option<Vec<u8>> + Send> {
+    use s2n_codec::EncoderValue;
+    let mut done = false;
+    Box::new(move |conn, sp, _pn, payload| {
+        if done || conn != 0 || sp != "a" || crate::common::now_us() < at_us {
+            return None;
+        }
+        let seq = crate::common::ISSUED_MAX.with(|c| c.get()[1]);
+        if seq == 0 { return None; }
+        done = true;
+        let mut out = payload.to_vec();
+        out.extend(frame::RetireConnectionId { sequence_number: vi(seq) }.encode_to_vec());
+        crate::common::emit(serde_json::json!({"ev": "early_retire_injected", "seq": seq}));
+        Some(out)
+    })
+}
